@@ -513,8 +513,12 @@ func gov15Case(w *vlog.W, a *wargs, id int, rng *rand.Rand, opts harness.Options
 				return err == nil
 			}
 			script = []func(map[string]bool) bool{
-				func(e map[string]bool) bool { return submit("register X", reg(X), e) && voteAll("register X", "approve", e) },
-				func(e map[string]bool) bool { return submit("freeze X", role("FreezeRole", X), e) && voteAll("freeze X", "approve", e) },
+				func(e map[string]bool) bool {
+					return submit("register X", reg(X), e) && voteAll("register X", "approve", e)
+				},
+				func(e map[string]bool) bool {
+					return submit("freeze X", role("FreezeRole", X), e) && voteAll("freeze X", "approve", e)
+				},
 				func(e map[string]bool) bool { return submit("activate X", role("ActivateRole", X), e) },
 				func(e map[string]bool) bool { return submit("logout X", role("LogoutRole", X), e) },
 				func(e map[string]bool) bool { return withdraw("activate X", e) },
